@@ -498,3 +498,9 @@ CASES += [
     state_method_case(LOCAL, "LocalApp", "get_process", ["RUNNING", "FINISHED"]),
     state_method_case(LOCAL, "LocalApp", "get_exit_code", ["FINISHED", "JOINED"]),
 ]
+
+from pyvc.api import bounded_via_script
+bounded = bounded_via_script("C20")
+ASSUMPTIONS.append("bounded stand-in (labelled, not a proof) for the MSA wrappers (msaapp.py, clustalo, muscle 3/5, mafft: temp files, order restoration, "
+                   "sequence-type mapping), which the proved Application/LocalApp contracts do not reach: real wrappers driven with fixtures/bin/fake_msa "
+                   "over n in {2,3,12,13} x 4 output orders x 3 sequence types x 7 external behaviours (bounded/C20.py)")
